@@ -6,6 +6,7 @@ import (
 	"crypto/sha1"
 	"fmt"
 	"go/types"
+	"os"
 )
 
 type BufObj struct {
@@ -238,6 +239,13 @@ func init() {
 		return Tuple{x.intConst(int64(len(s.a))), nilErr}
 	}
 
+	if os.Getenv("GOITSYM_INTRSCANNER") == "" { // default: bufio.Scanner is interpreted from its own SSA (real buffering, Bytes aliasing, token limit)
+		defer func() {
+			for _, k := range []string{"bufio.NewScanner", "(*bufio.Scanner).Scan", "(*bufio.Scanner).Err", "(*bufio.Scanner).Text"} {
+				delete(intrinsics, k)
+			}
+		}()
+	}
 	intrinsics["bufio.NewScanner"] = func(x *Exec, a []Value) Value { return &ScannerObj{src: a[0].(Iface)} }
 	intrinsics["(*bufio.Scanner).Scan"] = func(x *Exec, a []Value) Value {
 		s := a[0].(*ScannerObj)
